@@ -9,6 +9,10 @@ Anchors in /repo:
                             _compute_form_ir / _compute_expression_ir (alias names)
   ffcx/codegeneration/C/integral.py  factory_name = f"{name}_{domain.name}"
 
+The renumbering of coefficients / constants / arguments / domains that `compute_signature` performs for an
+expression BEFORE it asks UFL for the signature (naming.py:41-67) is modelled in FfcxModel/Jit/Renumber.lean;
+here an expression enters through that signature (128 hex characters).
+
 The model is the exact PRE-HASH STRING handed to `hashlib.sha1` (the harness captures
 that string inside ffcx.naming and compares it with `encode`), with SHA-1 itself an
 uninterpreted parameter `sha1 : Str → Str`.
@@ -174,7 +178,8 @@ def itemRepr (kv : Str × Scalar) : Str := tupleOf [reprStr kv.1, reprScalar kv.
 /-- jit.py `_compute_option_signature`: `str(sorted(options.items()))`. -/
 def optionSignature (o : Options) : Str := listOf ((sortItems o).map itemRepr)
 
-/-- The compile-input part of a JIT request (jit.py `_compilation_signature`, non-win32 branch). -/
+/-- The compile-input part of a JIT request (jit.py `_compilation_signature`, non-win32 branch; the win32
+branch is `compilationSignatureWin32` / `CompileArgs.win32` below). -/
 structure CompileArgs where
   extraArgs : List Str      -- cffi_extra_compile_args
   debug : Scalar            -- cffi_debug (a bool in every documented use)
@@ -184,6 +189,16 @@ structure CompileArgs where
 
 def compilationSignature (c : CompileArgs) : Str :=
   listOf (c.extraArgs.map reprStr) ++ strScalar c.debug ++ strScalar c.cflags ++ strScalar c.soabi
+
+/-- jit.py `_compilation_signature`, win32 branch:
+`str(cffi_extra_compile_args) + str(cffi_debug) + str(sysconfig.get_config_var("EXT_SUFFIX"))`. -/
+def compilationSignatureWin32 (extraArgs : List Str) (debug extSuffix : Scalar) : Str :=
+  listOf (extraArgs.map reprStr) ++ strScalar debug ++ strScalar extSuffix
+
+/-- A win32 request seen through `CompileArgs`: EXT_SUFFIX stands where CFLAGS stands, and nothing (the
+empty `str`) where SOABI stands — `compilationSignature_win32` (C13.lean) shows the two texts coincide. -/
+def CompileArgs.win32 (extraArgs : List Str) (debug extSuffix : Scalar) : CompileArgs :=
+  ⟨extraArgs, debug, extSuffix, .str []⟩
 
 /-- The `tag` argument of `compute_signature` for a module name. -/
 def moduleTag (o : Options) (c : CompileArgs) : Str := optionSignature o ++ compilationSignature c
